@@ -546,6 +546,11 @@ func (e *AsExpression) Evaluate(ctx *Context, input system.Collection) (system.C
 	if oneOf := protofields.UnwrapOneofField(message, "choice"); oneOf != nil {
 		return system.Collection{oneOf}, nil
 	}
+	if contained, ok := message.(*bcrpb.ContainedResource); ok {
+		if resource := containedresource.Unwrap(contained); resource != nil {
+			return system.Collection{resource}, nil
+		}
+	}
 	return result, nil
 }
 
